@@ -1,5 +1,6 @@
 """C16 — logical types use the specification's representation and round-trip
 over their whole domain; decimals are never stored as a different number."""
+import copy
 import datetime as dt
 import decimal
 import io
@@ -39,7 +40,7 @@ REACH = {
     "quick": {"date_values": 30000, "time_millis_values": 50000, "time_micros_values": 20000,
               "timestamp_values": 40000, "local_timestamp_values": 10000, "uuid_values": 2000,
               "decimal_cases": 20000, "decimal_must_raise": 2000, "decimal_must_succeed": 8000,
-              "decimal_neg_zero": 50, "decimal_fixed_boundary": 200},
+              "decimal_neg_zero": 50, "decimal_fixed_boundary": 200, "decimal_by_reference": 500, "subsecond_offsets": 500},
     "thorough": {"date_values": 3652059, "time_millis_values": 86400000},
 }
 EPOCH_ORD = dt.date(1970, 1, 1).toordinal()
@@ -243,8 +244,12 @@ def timestamps(sh, fa, rng, spec):
                 off = dt.timedelta(0)
             elif x < 0.75:
                 off = dt.timedelta(minutes=rng.randint(-1439, 1439))
-            else:
+            elif x < 0.88:
                 off = dt.timedelta(seconds=rng.randint(-86399, 86399))
+            else:
+                # offsets need not be whole seconds
+                off = dt.timedelta(seconds=rng.randint(-86398, 86398), microseconds=rng.choice([1, 250000, 500000, 999999, rng.randint(1, 999999)]))
+                sh.count("subsecond_offsets")
             local = u + off
             vals.append(local.replace(tzinfo=dt.timezone(off)))
         vals += [dt.datetime(1970, 1, 1, tzinfo=UTC), dt.datetime(1969, 12, 31, 23, 59, 59, 999999, tzinfo=UTC),
@@ -436,6 +441,27 @@ def decimals(sh, fa, rng, spec):
             if st == "exc" or not isinstance(got, decimal.Decimal) or got != d:
                 sh.violation("decimal-roundtrip-differs", "%r came back as %s" % (d, exc_name(got) if st == "exc" else repr(got)), info)
                 return
+            if fixed and verdict == "ok" and rng.random() < 0.35:
+                # the same logical type reached through by-name references (second field, array
+                # items, union branch): stored and returned exactly as at its definition
+                wrap = {"type": "record", "name": "Holder", "fields": [
+                    {"name": "a", "type": dict(js)}, {"name": "b", "type": "Dec"},
+                    {"name": "c", "type": {"type": "array", "items": "Dec"}}, {"name": "u", "type": ["null", "Dec"]},
+                    {"name": "m", "type": {"type": "map", "values": "Dec"}}]}
+                rec = {"a": d, "b": d, "c": [d], "u": d, "m": {"k": d}}
+                want = raw + raw + b"\x02" + raw + b"\x00" + b"\x02" + raw + b"\x02\x02k" + raw + b"\x00"
+                form = wrap if rng.random() < 0.5 else fa.parse_schema(copy.deepcopy(wrap))
+                out2 = io.BytesIO()
+                st, err = guard(fa.schemaless_writer, out2, form, rec)
+                if st == "exc" or out2.getvalue() != want:
+                    sh.violation("decimal-stored-as-different-number", "through by-name references: %s, expected %s"
+                                 % (exc_name(err) if st == "exc" else out2.getvalue().hex(), want.hex()), dict(info, schema=wrap, value=rec))
+                    return
+                st, got = guard(fa.schemaless_reader, io.BytesIO(want), form)
+                if st == "exc" or got != rec or not all(isinstance(x, decimal.Decimal) for x in (got["a"], got["b"], got["c"][0], got["u"], got["m"]["k"])):
+                    sh.violation("decimal-roundtrip-differs", "through by-name references: %s" % (exc_name(got) if st == "exc" else repr(got)), dict(info, schema=wrap, value=rec))
+                    return
+                sh.count("decimal_by_reference")
 
 
 def run_shard(spec):
